@@ -167,6 +167,24 @@ def r2_blend(ctx, p, RULE="C10-R2"):
         for comp in ("mean", "variance", "msd"):
             if comp not in seen:
                 ctx.fail(RULE, ab.path, "component " + comp, "mul_add_assign leaves the %s unweighted / unaccumulated" % comp, ab.loc())
+        # the blend is linear in the weight for every weight: nothing in mul / mul_add_assign is
+        # decided by the weight (no "skip small / zero / negative weights" shortcut)
+        for fb_ in (ab, p.body(MUL)):
+            if fb_ is None:
+                continue
+            feb = ExprBuilder(fb_)
+            wl = [l for l in range(1, fb_.argc + 1) if fb_.local_ty(l) == "f64"]
+            bad = None
+            for bb in range(len(fb_.blocks)):
+                if fb_.is_cleanup(bb):
+                    continue
+                for g in paths.guards(fb_, bb, feb):
+                    if g[0] in ("true", "false") and any(x[0] == "arg" and x[1] in wl for x in walk(g[1])):
+                        bad = (bb, show(g[1])[:80])
+            if bad:
+                ctx.fail(RULE, fb_.path, "weight-dependent branch", "%s branches on the weight (`%s`): voices with such weights are not blended linearly" % (fb_.path.split("::")[-1], bad[1]), fb_.loc())
+            else:
+                ctx.ok(RULE, "%s: no branch depends on the weight" % fb_.path.split("::")[-1], fb_.loc())
         # the pair loop zips the two parameter vectors without skipping
         its = [eb.call(t) for bb, t in ab.calls() if t["callee"]["k"] == "fndef" and cm.callee_name(t["callee"]).endswith("Iterator::zip")]
         if len(its) == 1 and "self.parameters" in show(its[0]) and "rhs.parameters" in show(its[0]) and not [a for a in adaptors(its[0]) if a in BAD_ADAPTORS]:
